@@ -44,6 +44,12 @@ type c01Msg struct {
 	MidSize   int `json:"mid_size,omitempty"`
 	AbortFull int `json:"abort_full,omitempty"`
 	AbortType int `json:"abort_type,omitempty"`
+	// AbortKind "stall": the abandoned package (AbortFull full packets and a rest) is queued with a context that
+	// expires after two simulated seconds while the peer has stopped reading (its socket buffer takes StallWindow
+	// more bytes, so a Write blocks in the middle of the message); after five seconds the peer reads on. A slow
+	// peer is not a failed transport: whatever the calls return, only whole packets may reach the transport - 0 to
+	// AbortFull full packets of the abandoned message - and the message that follows must be intact.
+	StallWindow int `json:"stall_window,omitempty"`
 }
 
 type c01Plan struct {
@@ -156,6 +162,22 @@ func (c01) Gen(r *Rand, idx int, tier string) interface{} {
 				m.AbortFull = 1 + r.Intn(2)
 				m.Abort += m.AbortFull * body
 				m.AbortType = 1 + r.Intn(23)
+			}
+		}
+		if m.Abort == 0 && ps <= 8192 && r.Pct(7) {
+			m.AbortKind = "stall"
+			m.AbortFull = 1 + r.Intn(2)
+			m.Abort = m.AbortFull*body + 1 + r.Intn(body-1)
+			m.AbortType = 1 + r.Intn(23)
+			switch r.Intn(4) {
+			case 0:
+				m.StallWindow = 0
+			case 1:
+				m.StallWindow = r.Intn(ps) // inside the first packet (header included)
+			case 2:
+				m.StallWindow = m.AbortFull*ps - r.Intn(3) // at the end of the full packets
+			default:
+				m.StallWindow = r.Intn(m.AbortFull*ps + 1)
 			}
 		}
 		if len(m.Pkgs) == 1 && r.Pct(60) {
@@ -280,6 +302,8 @@ func c01Bytes(mi, pi int, pk c01Pkg) []byte {
 	return b
 }
 
+func pk0Len(pkts []peer.RecvPacket) uint16 { return pkts[0].H.Length }
+
 const c01TailCmd = "select 'after the teardown'"
 
 func c01Package(mi, pi int, pk c01Pkg) tds.Package {
@@ -313,6 +337,7 @@ func (c01) Run(plan interface{}, schedSeed uint64, replay []simrt.Choice, lenien
 	var arrivals []arrival
 	curMsg := -1
 	armed := false
+	quiet := false // the peer is receiving what a slow-peer episode left in its socket buffer: no answer is due
 	var chanID uint16
 	pr.OnPacket = func(pk peer.RecvPacket) {
 		if curMsg < 0 {
@@ -326,7 +351,7 @@ func (c01) Run(plan interface{}, schedSeed uint64, replay []simrt.Choice, lenien
 		if curMsg == len(p.Msgs) && pk.H.Type == peer.BufClose && pk.H.Channel != 0 {
 			return // the teardown of the logical channel is not answered
 		}
-		if !armed {
+		if !armed && !quiet {
 			armed = true
 			mi := curMsg
 			s.After(time.Millisecond, "respond", func() {
@@ -414,6 +439,22 @@ func (c01) Run(plan interface{}, schedSeed uint64, replay []simrt.Choice, lenien
 						aborted = append(aborted, fmt.Sprintf("message %d: queueing a package that cannot be encoded reported success", mi))
 					}
 					ch.Reset()
+				case "stall":
+					dl, cancelDl := simrt.WithTimeout(context.Background(), 2*time.Second)
+					window := m.StallWindow
+					simrt.Sched(func() { quiet = true; pr.Conn.StallFor(window, 5*time.Second) })
+					errQ := ch.QueuePackage(dl, t)
+					simrt.Sleep(6 * time.Second) // the context has expired and the peer reads again
+					simrt.Sched(func() { quiet = false })
+					if errQ == nil {
+						if err := ch.SendRemainingPackets(dl); err == nil {
+							aborted = append(aborted, fmt.Sprintf("message %d: a flush with an expired context reported success", mi))
+						}
+					} else {
+						// whatever the error is (C01 does not judge it): the caller abandons the message
+						ch.Reset()
+					}
+					cancelDl()
 				case "reset":
 					if err := ch.QueuePackage(ctx, t); err != nil {
 						sendErrs = append(sendErrs, fmt.Sprintf("message %d: queueing the package to be abandoned: %v", mi, err))
@@ -591,6 +632,13 @@ func (c01) Run(plan interface{}, schedSeed uint64, replay []simrt.Choice, lenien
 		}
 		// full packets of an abandoned message come first
 		for k := 0; k < m.AbortFull && v.Class == ""; k++ {
+			if m.AbortKind == "stall" {
+				v.Probe("slow-peer-abandoned")
+				// 0..AbortFull packets of the abandoned message: as many as went out before the context expired
+				if len(pkts) == 0 || !(int(pk0Len(pkts)) == ps && bytes.Equal(pkts[0].Body, bytes.Repeat([]byte{0x5a}, ps-8))) {
+					break
+				}
+			}
 			if len(pkts) == 0 {
 				v.Violate("abandoned", "abandoned message: packets missing", "%s: %d full packets of the abandoned package were due on the wire, %d arrived", where, m.AbortFull, k)
 				break
@@ -722,5 +770,5 @@ func (c01) Run(plan interface{}, schedSeed uint64, replay []simrt.Choice, lenien
 
 // RequiredProbes: a batch in which one of these never fired explored nothing of that kind (exit 2, not a pass).
 func (c01) RequiredProbes() []string {
-	return []string{"boundary:d=+0", "boundary:d=-1", "boundary:d=+1", "packet-size-change"}
+	return []string{"boundary:d=+0", "boundary:d=-1", "boundary:d=+1", "packet-size-change", "slow-peer-abandoned"}
 }
